@@ -655,6 +655,107 @@ fn main() {
         rep.notes.push(format!("hidden-incomparability cases: {} ({} raised)", hidden, raised));
     }
 
+    // ---- ARGUMENT FORMS: comparison operators called with 0-5 operands (plain and splat), infix
+    // chains (same and mixed operators), `sort(xs) == xs`; and every form that reaches an extremum
+    {
+        let n_forms = if thorough { 60_000 } else { 4_000 };
+        interp.eval("zz := null");
+        let six = ["==", "!=", "<", "<=", ">", ">="];
+        let nums = &by_fam[0];
+        let any: Vec<usize> = (0..pool.len()).filter(|&i| pool[i].kind != "func").collect();
+        for it in 0..n_forms {
+            let len = rng.below(6) as usize;
+            let fam = if rng.chance(3, 4) { nums } else { &by_fam[rng.below(fams.len() as u64) as usize] };
+            if fam.is_empty() {
+                continue;
+            }
+            let mut idx: Vec<usize> = (0..len).map(|_| *rng.pick(fam)).collect();
+            // runs of equal values of different levels, ascending stretches, and an incomparable
+            // operand at a random position
+            if len >= 2 && rng.chance(1, 3) {
+                let mut sorted_idx = idx.clone();
+                sorted_idx.sort_by(|&a, &b| {
+                    match interp.eval(&format!("p{} <=> p{}", a, b)) {
+                        Outcome::Ok(s) if s == "-1" => std::cmp::Ordering::Less,
+                        Outcome::Ok(s) if s == "1" => std::cmp::Ordering::Greater,
+                        _ => std::cmp::Ordering::Equal,
+                    }
+                });
+                idx = sorted_idx;
+                if rng.chance(1, 2) && len >= 3 {
+                    // out of order only relative to the FIRST operand's neighbour: x1 < x3 < x2 pattern
+                    idx.swap(len - 1, len - 2);
+                }
+            }
+            if len >= 1 && rng.chance(1, 6) {
+                let pos = rng.below(len as u64) as usize;
+                idx[pos] = *rng.pick(&any);
+            }
+            let vars: Vec<String> = idx.iter().map(|i| format!("p{}", i)).collect();
+            let srcs: Vec<String> = idx.iter().map(|&i| pool[i].src.clone()).collect();
+            let can = format!("[{}]", idx.iter().map(|&i| pool[i].canon.clone()).collect::<Vec<_>>().join(","));
+            let op = *rng.pick(&six);
+            let mut push = |key: String, expr_v: String, expr_s: String, req: String, cases: &mut Vec<Case>| {
+                let out = interp.eval(&expr_v);
+                cases.push(Case { key, input: expr_s, request: req, rust: out.class(), nontrivial: true });
+            };
+            match it % 4 {
+                0 => {
+                    // call form, plain and splat
+                    push(format!("call{}({})", len, op), format!("{}({})", op, vars.join(", ")), format!("{}({})", op, srcs.join(", ")), format!("call {} {}", op, can), &mut cases);
+                    push(format!("call-splat{}({})", len, op), format!("{}(...[{}])", op, vars.join(", ")), format!("{}(...[{}])", op, srcs.join(", ")), format!("call {} {}", op, can), &mut cases);
+                    if op == "<=" {
+                        push("sort(xs)==xs".into(), format!("sort([{}]) == [{}]", vars.join(", "), vars.join(", ")), format!("sort([{}]) == [{}]", srcs.join(", "), srcs.join(", ")), format!("sortedeq {}", can), &mut cases);
+                    }
+                }
+                1 => {
+                    if len >= 2 {
+                        // infix chain: the same operator, and mixed operators
+                        let same = vars.join(&format!(" {} ", op));
+                        push(format!("chain-same{}({})", len, op), same, srcs.join(&format!(" {} ", op)), format!("chain {} {}", vec![op; len - 1].join(","), can), &mut cases);
+                        let ops: Vec<&str> = (0..len - 1).map(|_| *rng.pick(&six)).collect();
+                        let mut ev = vars[0].clone();
+                        let mut es = srcs[0].clone();
+                        for k in 1..len {
+                            ev = format!("{} {} {}", ev, ops[k - 1], vars[k]);
+                            es = format!("{} {} {}", es, ops[k - 1], srcs[k]);
+                        }
+                        push(format!("chain-mixed{}", len), ev, es, format!("chain {} {}", ops.join(","), can), &mut cases);
+                    }
+                }
+                2 => {
+                    // extremum forms over the same operands
+                    let which = if rng.chance(1, 2) { "min" } else { "max" };
+                    let l_v = format!("[{}]", vars.join(", "));
+                    let l_s = format!("[{}]", srcs.join(", "));
+                    push(format!("{}-fold{}", which, len), format!("{} fold {}", l_v, which), format!("{} fold {}", l_s, which), format!("extfold {} {}", which, can), &mut cases);
+                    push(format!("{}-cata{}", which, len), format!("for (x <- {}) yield x into {}", l_v, which), format!("for (x <- {}) yield x into {}", l_s, which), format!("cata {} {}", which, can), &mut cases);
+                    push(format!("{}-list{}", which, len), format!("{}({})", which, l_v), format!("{}({})", which, l_s), format!("ext {} {}", which, can), &mut cases);
+                    if len >= 2 {
+                        push(format!("{}-args{}", which, len), format!("{}({})", which, vars.join(", ")), format!("{}({})", which, srcs.join(", ")), format!("ext {} {}", which, can), &mut cases);
+                    }
+                    if len == 2 {
+                        push(format!("{}-infix", which), format!("{} {} {}", vars[0], which, vars[1]), format!("{} {} {}", srcs[0], which, srcs[1]), format!("extfold {} {}", which, can), &mut cases);
+                        push(format!("{}-opassign", which), format!("(zz = {}; zz {}= {}; zz)", vars[0], which, vars[1]), format!("(zz := {}; zz {}= {}; zz)", srcs[0], which, srcs[1]), format!("extfold {} {}", which, can), &mut cases);
+                    }
+                    let (cname, csrc) = *rng.pick(&[("cmp", "\\a, b -> a <=> b"), ("rcmp", "\\a, b -> b <=> a"), ("half", "\\a, b -> (a <=> b) / 2"), ("const0", "\\a, b -> 0"), ("str", "\\a, b -> \"x\"")]);
+                    push(format!("{}-by-{}{}", which, cname, len), format!("{}({}, {})", which, l_v, csrc), format!("{}({}, {})", which, l_s, csrc), format!("extby {} {} {}", which, cname, can), &mut cases);
+                }
+                _ => {
+                    // per-key catamorphism: keys from a small set of equal spellings, values = the operands
+                    let which = if rng.chance(1, 2) { "min" } else { "max" };
+                    let kpool = ["0", "1", "1.0", "(2/2)", "\"a\"", "[1]", "[1.0]"];
+                    let ks: Vec<&str> = (0..len).map(|_| *rng.pick(&kpool)).collect();
+                    let kc: Vec<String> = ks.iter().map(|k| match interp.eval_obj(k) { Ok(o) => canon(&o), Err(_) => "null".into() }).collect();
+                    let pv = format!("[{}]", (0..len).map(|k| format!("[{}, {}]", ks[k], vars[k])).collect::<Vec<_>>().join(", "));
+                    let ps = format!("[{}]", (0..len).map(|k| format!("[{}, {}]", ks[k], srcs[k])).collect::<Vec<_>>().join(", "));
+                    let pc = format!("[{}]", (0..len).map(|k| format!("[{},{}]", kc[k], pool[idx[k]].canon)).collect::<Vec<_>>().join(","));
+                    push(format!("{}-cata-dict{}", which, len), format!("for (q <- {}) yield q[0]: q[1] into {}", pv, which), format!("for (q <- {}) yield q[0]: q[1] into {}", ps, which), format!("catad {} {}", which, pc), &mut cases);
+                }
+            }
+        }
+    }
+
     // ---- n-ary min / max
     let non_func: Vec<usize> = (0..pool.len()).filter(|&i| pool[i].kind != "func").collect();
     for _ in 0..n_ext {
